@@ -306,6 +306,11 @@ class Calls:
                 return w.class_attr(it, obj.data, name)
             if obj.kind == 'modattr':
                 return w.module_attr(it, obj.data + '.' + name, None)
+            if name in ('__qualname__', '__name__') and obj.kind in ('bound', 'func', 'unbound', 'closure', 'lambda'):
+                # the name of a function / method: some fixed string
+                d = obj.data
+                text = '.'.join(str(x) for x in d[1:]) if isinstance(d, tuple) and len(d) >= 3 else str(d[-1] if isinstance(d, tuple) else d)
+                return SV(const(text if name == '__qualname__' else text.split('.')[-1]), 'str')
             raise Unsupported(f'attribute {name} of {obj}')
         ty = obj.ty
         if name == '__name__' and ty and ty.split('|')[0].startswith('callable:'):
